@@ -27,7 +27,8 @@ TEXTS = [None, "x", " x ", "x  y", "   ", "\t", "\xa0", " \xa0 ", "\n    ", "\n 
          # longer than any line width an exporter might wrap at
          "some words  and more " * 8, " " * 90, "\xa0" * 40 + " " * 60, "x" * 130,
          # a general entity declared in the document's own internal subset (see check(): a DOCTYPE is prepended)
-         "Hello &who;!", "&who;"]
+         "Hello &who;!", "&who;",
+         "a[b[0]]&gt;1", "<![CDATA[x]]]]><![CDATA[>y]]>", "]]&gt;"]
 ATTRS = [["k", "v"], ["k", "a b"], ["k", "&lt;&amp;&quot;"], ["k", ""], ["k", " x "], ["k", "it's &quot;q&quot;"],
          ["xml:lang", "en"], ["xml:space", "preserve"]]
 OPTIONS = [(clean, collapse, lit) for clean in (True, False) for collapse in (True, False)
@@ -124,6 +125,8 @@ def apply(doc, devs):
             _ensure_decl(e, "p", U1) if not any(x[0] == "p" for x in e["nsdecl"]) else None
             e["attrs"].append(["p:attr", "say &quot;hi&quot; &amp; &lt;go&gt; 'x'"])
             e["attrs"].append(["xml:lang", "e&quot;n"])
+            e["attrs"].append(["p:data-type", "d"])
+            e["attrs"].append(["p:v1.0_\u00e9", "v"])
         elif kind == "qattr_ancestor":
             if not any(x[0] == "p" for x in d["nsdecl"]):
                 _ensure_decl(d, "p", U1)
